@@ -318,3 +318,174 @@ Proof. exact translated_encode_text_utf8. Qed.
 Theorem c14_translated_htmlescape_plain_unchanged : forall text,
   forallb (fun c => negb (he_special c)) text = true -> g_he_encode_text text = Some text.
 Proof. exact translated_encode_text_plain. Qed.
+(* ---- third-party unicode-width, TRANSLATED (tools/gen_fn_unicodewidth.py -> Generated/UnicodeWidthFn.v): the width
+   oracle of the svg model is the translated `<str as UnicodeWidthStr>::width` ---- *)
+From AV Require Import Model.UnicodeWidth Generated.UnicodeWidthFn Proofs.UnicodeWidthGen Model.SvgWidth Proofs.SvgWidthGen.
+
+(* no panic: every index into WIDTH_ROOT / WIDTH_MIDDLE / WIDTH_LEAVES / EMOJI_PRESENTATION_LEAVES is in bounds, for
+   every code point below 2^21 (a char is below 0x110000) and every state of the look-ahead machine *)
+Theorem c14_translated_unicodewidth_lookup_in_bounds :
+  forall c, c < 2097152 -> exists r, g_uw_lookup_width c = Some r.
+Proof. exact g_uw_lookup_width_total. Qed.
+
+Theorem c14_translated_unicodewidth_step_total :
+  forall c info, c < 2097152 -> exists r, g_uw_width_in_str c info = Some r.
+Proof. exact g_uw_width_in_str_total. Qed.
+
+Theorem c14_translated_unicodewidth_total :
+  forall s, Forall (fun c => c < 2097152) s -> exists n, g_uw_str_trait_width s = Some n.
+Proof. exact g_uw_str_trait_width_total. Qed.
+
+(* the lists handed to binary_search_by are sorted (disjoint increasing ranges), and on the one-byte lists the
+   bisection of Model/UnicodeWidth.v finds a range iff there is one *)
+Theorem c14_translated_unicodewidth_tables_sorted :
+  forallb (uw_sorted_ranges None) uw_leaves8 = true /\ uw_sorted_ranges None uw_ranges24 = true.
+Proof. exact uw_tables_sorted. Qed.
+
+Theorem c14_translated_unicodewidth_bsearch_is_scan :
+  forall t b, In t uw_leaves8 -> b < 256 ->
+  uw_res_is_ok (uw_binary_search_by (uw_cmp_range b) t) = uw_in_ranges b t.
+Proof. exact uw_bsearch8_is_scan. Qed.
+
+(* printable ASCII: one column per character (strings and single characters); CR LF is one column *)
+Theorem c14_translated_unicodewidth_ascii :
+  forall s, Forall (fun c => 32 <= c /\ c < 127) s -> N.of_nat (length s) < 18446744073709551616 ->
+  g_uw_str_width s = Some (N.of_nat (length s)).
+Proof. exact g_uw_str_width_ascii. Qed.
+
+Theorem c14_translated_unicodewidth_char_ascii :
+  forall c, 32 <= c /\ c < 127 -> g_uw_single_char_width c = Some (Some 1).
+Proof. exact g_uw_char_width_printable_ascii. Qed.
+
+Theorem c14_translated_unicodewidth_crlf :
+  g_uw_str_width [13; 10] = Some 1 /\ g_uw_str_width [10] = Some 1 /\ g_uw_str_width [13] = Some 1.
+Proof. exact g_uw_str_width_crlf. Qed.
+
+(* the oracle component svg_o_uw, instantiated: on a string of chars the Rust call answers uw_width, a usize *)
+Theorem c14_translated_unicodewidth_is_oracle :
+  forall ceil84 minw s, forallb uw_is_char s = true ->
+  g_uw_str_trait_width s = Some (svg_o_uw (svg_uw_oracle ceil84 minw) s).
+Proof. exact svg_oracle_uw_is_translated. Qed.
+
+Theorem c14_translated_unicodewidth_usize : forall s, uw_width s < 18446744073709551616.
+Proof. exact uw_width_lt. Qed.
+
+(* write_bg_span: the fill drawn behind a fragment is as wide as the (escaped) fragment *)
+Theorem c14_translated_unicodewidth_fill :
+  forall x, uw_width (repeat svg_fill_on (N.to_nat (uw_width x))) = uw_width x /\
+            uw_width (repeat svg_fill_off (N.to_nat (uw_width x))) = uw_width x.
+Proof. exact (fun x => conj (uw_width_fill_on x) (uw_width_fill_off x)). Qed.
+
+(* render_svg, translated, with the widths COMPUTED by the translated unicode-width: the only parameter left is the
+   f64 product `(x as f64 * 8.4).ceil() as usize` *)
+Theorem c14_translated_unicodewidth_render_svg :
+  forall ceil84 minw t input,
+  g_svg_render (mkSvgOracle uw_width ceil84 minw) t input =
+  (styled <- svg_styled t input ;;
+   d <- svg_doc t input ;;
+   Some (svg_print (svg_width_px (mkSvgOracle uw_width ceil84 minw) (svg_split_lines styled)) uw_width d)).
+Proof. exact translated_render_svg_uw. Qed.
+
+Theorem c14_translated_unicodewidth_built_term_renders :
+  forall ceil84 bs input,
+  let t := g_svg_build g_svg_term_new bs in
+  g_svg_render_full (svg_tf_oracle uw_width ceil84 t) t input =
+  (styled <- svg_styled (svg_tf_term t) input ;;
+   d <- svg_doc (svg_tf_term t) input ;;
+   Some (svg_print (svg_width_px (svg_tf_oracle uw_width ceil84 t) (svg_split_lines styled)) uw_width d)).
+Proof. exact translated_built_term_renders_uw. Qed.
+
+(* what `driver model` runs for case kind svgraw (no quantity is read off the real output any more) *)
+Theorem c14_translated_unicodewidth_driver_model :
+  forall palette fg bg background minw input,
+  g_svg_render (mkSvgOracle uw_width svg_ceil84_exact minw) (mkSvgTerm palette fg bg background) input =
+  svg_m_render_uw palette fg bg background minw input.
+Proof. exact translated_render_svg_is_driver_model. Qed.
+
+(* the rules the crate documents, as worked examples of the translation (one per arm of the look-ahead machine) *)
+Theorem c14_translated_unicodewidth_documented_rules :
+  (* CR LF is one column *)
+  g_uw_str_width [13; 10] = Some 1 /\
+  (* ASCII *)
+  g_uw_str_width [97; 98; 99] = Some 3 /\
+  (* East_Asian_Width=Wide *)
+  g_uw_str_width [20013] = Some 2 /\
+  (* Emoji_Presentation *)
+  g_uw_str_width [128512] = Some 2 /\
+  (* emoji ZWJ sequence: 2 *)
+  g_uw_str_width [128104; 8205; 128105; 8205; 128103; 8205; 128102] = Some 2 /\
+  (* emoji modifier sequence: 2 *)
+  g_uw_str_width [128077; 127995] = Some 2 /\
+  (* emoji presentation sequence (VS16): 2 *)
+  g_uw_str_width [10084; 65039] = Some 2 /\
+  (* VS15 on a text-default character *)
+  g_uw_str_width [10084; 65038] = Some 1 /\
+  (* U+231A alone *)
+  g_uw_str_width [8986] = Some 2 /\
+  (* text presentation sequence (VS15): 1 *)
+  g_uw_str_width [8986; 65038] = Some 1 /\
+  (* U+1F004 VS15 *)
+  g_uw_str_width [126980; 65038] = Some 1 /\
+  (* VS15 in Enclosed Ideographic Supplement: still 2 *)
+  g_uw_str_width [127514; 65038] = Some 2 /\
+  (* Arabic lam-alef ligature: 1 *)
+  g_uw_str_width [1604; 1575] = Some 1 /\
+  (* lam, transparent mark, alef: 1 *)
+  g_uw_str_width [1604; 1611; 1575] = Some 1 /\
+  (* lam alone *)
+  g_uw_str_width [1604] = Some 1 /\
+  (* Buginese <a, -i> ya: 1 *)
+  g_uw_str_width [6677; 6679; 8205; 6672] = Some 1 /\
+  (* Hebrew alef ZWJ lamed: 1 *)
+  g_uw_str_width [1488; 8205; 1500] = Some 1 /\
+  (* Khmer coeng sign: 0 *)
+  g_uw_str_width [6098; 6016] = Some 0 /\
+  (* letter + coeng sign *)
+  g_uw_str_width [6016; 6098; 6016] = Some 1 /\
+  (* Lisu tone letters: 1 *)
+  g_uw_str_width [42232; 42236] = Some 1 /\
+  (* Old Turkic ligature: 1 *)
+  g_uw_str_width [68658; 8205; 68611] = Some 1 /\
+  (* Tifinagh bi-consonant (joiner): 1 *)
+  g_uw_str_width [11569; 11647; 11569] = Some 1 /\
+  (* Tifinagh bi-consonant (ZWJ): 1 *)
+  g_uw_str_width [11569; 8205; 11569] = Some 1 /\
+  (* U+2D7F alone: 1 *)
+  g_uw_str_width [11647] = Some 1 /\
+  (* U+115F: 2 *)
+  g_uw_str_width [4447] = Some 2 /\
+  (* U+17A4: 2 *)
+  g_uw_str_width [6052] = Some 2 /\
+  (* U+17D8: 3 *)
+  g_uw_str_width [6104] = Some 3 /\
+  (* U+0CC0: 0 *)
+  g_uw_str_width [3264] = Some 0 /\
+  (* Hangul vowel jamo: 0 *)
+  g_uw_str_width [4448] = Some 0 /\
+  (* prepended concatenation mark U+0605: 0 *)
+  g_uw_str_width [1541] = Some 0 /\
+  (* U+A8FA: 0 *)
+  g_uw_str_width [43258] = Some 0 /\
+  (* a base letter and a Grapheme_Extend mark (width 0): 1 *)
+  g_uw_str_width [233] = Some 1 /\
+  (* Default_Ignorable U+00AD: 0 *)
+  g_uw_str_width [173] = Some 0 /\
+  (* U+200B: 0 *)
+  g_uw_str_width [8203] = Some 0 /\
+  (* regional indicator pair *)
+  g_uw_str_width [127482; 127480] = Some 2 /\
+  (* three regional indicators *)
+  g_uw_str_width [127482; 127480; 127462] = Some 3 /\
+  (* keycap sequence *)
+  g_uw_str_width [35; 65039; 8419] = Some 2 /\
+  (* tag sequence (flag of England) *)
+  g_uw_str_width [127988; 917607; 917602; 917605; 917614; 917607; 917631] = Some 2 /\
+  (* emoji ZWJ flags *)
+  g_uw_str_width [128512; 8205; 127482; 127480; 127482; 127480] = Some 4 /\
+  (* control characters count 1 each inside a string *)
+  g_uw_str_width [0; 7; 127; 159] = Some 4 /\
+  (* U+10FFFF *)
+  g_uw_str_width [1114111] = Some 1 /\
+  (* Ambiguous: narrow *)
+  g_uw_str_width [161; 9608] = Some 2.
+Proof. exact g_uw_documented_examples. Qed.
